@@ -53,7 +53,18 @@ def run(ctx) -> None:
     rep = ctx.rep
     a = ctx.a
     f = merge_func(ctx)
+    public = f
     p0, p1 = f.params[0], f.params[1]
+    # a thin public wrapper `return _worker(original, overrides, ...)` (e.g. a recursive
+    # worker that carries extra bookkeeping arguments): the worker is the merge
+    body = [st for st in f.node.body if not (isinstance(st, ast.Expr) and isinstance(st.value, ast.Constant) and isinstance(st.value.value, str))]
+    if len(body) == 1 and isinstance(body[0], ast.Return) and isinstance(body[0].value, ast.Call):
+        fw = body[0].value
+        cal = a.callee(f, fw)
+        if cal.kind == "func" and cal.func is not f and len(fw.args) >= 2 and isinstance(fw.args[0], ast.Name) and fw.args[0].id == p0 and isinstance(fw.args[1], ast.Name) and fw.args[1].id == p1 and len(cal.func.params) >= 2 and cal.func.cls is None:
+            f = cal.func
+            p0, p1 = f.params[0], f.params[1]
+            rep.note(f"merge_config forwards to {f.qualname}: the worker is analysed as the merge")
     cfg = a.cfg(f)
     rd = ReachingDefs(a, f)
     facts = Facts(a, f, rd)
@@ -76,14 +87,33 @@ def run(ctx) -> None:
     rep.floor("C17.R1", res.mutation_sites, 1)
 
     # ------------------------------------------------------------ result variable
-    rvars = {rd.text(n.id, n.ast.value) for n in returns if n.ast.value is not None}
-    if len(rvars) != 1 or not all(isinstance(n.ast.value, ast.Name) for n in returns if n.ast.value is not None):
+    def _unwrap_copy(v):
+        # `return deepcopy(result)` / `dict(result)` / `result.copy()`: still the result
+        while True:
+            if isinstance(v, ast.Call) and call_name(v) in ("deepcopy", "copy", "dict") and len(v.args) == 1 and not v.keywords and isinstance(v.func, (ast.Name, ast.Attribute)) and isinstance(v.args[0], ast.Name):
+                v = v.args[0]
+            elif isinstance(v, ast.Call) and isinstance(v.func, ast.Attribute) and v.func.attr == "copy" and not v.args and isinstance(v.func.value, ast.Name):
+                v = v.func.value
+            else:
+                return v
+
+    rvars = {rd.text(n.id, _unwrap_copy(n.ast.value)) for n in returns if n.ast.value is not None}
+    if len(rvars) != 1 or not all(isinstance(_unwrap_copy(n.ast.value), ast.Name) for n in returns if n.ast.value is not None):
         rep.unrecognised("C17.R2", f, f.node, f"merge_config does not return a single result variable ({sorted(rvars)})")
         return
     R = rvars.pop()
 
     # ------------------------------------------------------------ the override loop
     loops = [n for n in walk_own(f.node) if isinstance(n, ast.For)]
+    # `for layer in (overrides, *more): ... for k, v in layer.items()`: with the two documented
+    # arguments the only layer is `overrides`, so the layer variable stands for it
+    for lp in loops:
+        if isinstance(lp.target, ast.Name) and isinstance(lp.iter, (ast.Tuple, ast.List)) and lp.iter.elts and isinstance(lp.iter.elts[0], ast.Name) and lp.iter.elts[0].id == p1:
+            extra = lp.iter.elts[1:]
+            varargs = {f.node.args.vararg.arg} if f.node.args.vararg else set()
+            if all(isinstance(e, ast.Starred) and isinstance(e.value, ast.Name) and e.value.id in varargs for e in extra):
+                rep.note(f"override layers: `{lp.target.id}` iterates ({p1}, *{sorted(varargs)}); analysed for the documented two-argument call")
+                p1 = lp.target.id
     loop = None
     for lp in loops:
         it = lp.iter
@@ -188,10 +218,10 @@ def run(ctx) -> None:
         rep.violate("C17.R3", f, loop, "no recursive merge for dict/dict collisions")
     orig_val_text = None
     for n, call in rec_nodes:
-        if len(call.args) != 2:
+        if len(call.args) < 2 or (f is public and len(call.args) != 2):
             rep.unrecognised("C17.R3", f, call, "recursive call does not pass two positional arguments")
             continue
-        a0, a1 = call.args
+        a0, a1 = call.args[0], call.args[1]
         cl0 = rd.closure_at(n.id, a0)
         first_ok = (R in cl0.names or p0 in cl0.names or any(isinstance(e, ast.Name) and e.id == R for ex in cl0.exprs for e in ast.walk(ex))) and any(isinstance(e, ast.Name) and e.id == K for ex in cl0.exprs for e in ast.walk(ex))
         first_ok = first_ok and not any(isinstance(e, ast.Name) and e.id == V for ex in cl0.exprs for e in ast.walk(ex))
